@@ -180,15 +180,22 @@ class Engine:
             n = n.parent
 
     def _arm(self):
-        self._deadline = time.time() + self.path_seconds
-
+        # the path budget is CPU time of this process (a loaded machine must not turn a slow path into
+        # a divergence); a generous wall clock limit stays as a backstop for paths that block
         def handler(signum, frame):
-            signal.setitimer(signal.ITIMER_REAL, 0.2)  # re-arm until it propagates
-            raise Diverged("wall clock budget of path exhausted")
-        signal.signal(signal.SIGALRM, handler)
-        signal.setitimer(signal.ITIMER_REAL, self.path_seconds)
+            signal.setitimer(signal.ITIMER_PROF, 0.2)  # re-arm until it propagates
+            raise Diverged("cpu time budget of path exhausted")
+
+        def wall(signum, frame):
+            signal.setitimer(signal.ITIMER_REAL, 0.2)
+            raise Diverged("wall clock backstop of path exhausted")
+        signal.signal(signal.SIGPROF, handler)
+        signal.signal(signal.SIGALRM, wall)
+        signal.setitimer(signal.ITIMER_PROF, self.path_seconds)
+        signal.setitimer(signal.ITIMER_REAL, 10 * self.path_seconds + 60)
 
     def _disarm(self):
+        signal.setitimer(signal.ITIMER_PROF, 0)
         signal.setitimer(signal.ITIMER_REAL, 0)
 
     # ---- interval folding: single variable comparisons decided by known bounds -------------
